@@ -202,8 +202,23 @@ func c10Weighted(c *C10Case, r *core.Rec) {
 			acc = []float64{groups[len(groups)-1].x}
 		default:
 			t := ref.Mul(ref.R(q), W)
-			d := ref.R(1e-12 * Wf)
-			acc = []float64{first(t), first(ref.Sub(t, d)), first(ref.Add(t, d))}
+			acc = []float64{first(t)}
+			// When q*W coincides exactly with a cumulative weight the float computation
+			// W*q is exact too and "exceeds" is unambiguous. Only when q*W merely lies
+			// within rounding distance of a cumulative weight may the float product
+			// fall on either side.
+			exactHit := false
+			cm := new(big.Rat)
+			for _, g := range groups {
+				cm.Add(cm, g.w)
+				if cm.Cmp(t) == 0 {
+					exactHit = true
+				}
+			}
+			if !exactHit {
+				d := ref.R(1e-12 * Wf)
+				acc = append(acc, first(ref.Sub(t, d)), first(ref.Add(t, d)))
+			}
 		}
 		ok := false
 		for _, a := range acc {
